@@ -29,6 +29,8 @@ type Session struct {
 	Ad    Adapter
 
 	lastBackup *Obs
+	NoAt       bool // recovered hub: no real instants are known, only "now" queries are asked
+	relaxFull  *Obs // crash during compaction: the full feed may lie between this (before) and the expected (after)
 	jobAdded   map[int]bool
 	bm         *server.BackupManager
 	bmWorldGen int
@@ -310,6 +312,17 @@ func sameSeq(a, b []CEntity) bool {
 	return true
 }
 
+// isSubseq reports whether a is a subsequence of b.
+func isSubseq(a, b []CEntity) bool {
+	i := 0
+	for _, x := range b {
+		if i < len(a) && a[i].Key() == x.Key() {
+			i++
+		}
+	}
+	return i == len(a)
+}
+
 func sameBag(a, b []CEntity) bool {
 	if len(a) != len(b) {
 		return false
@@ -468,13 +481,30 @@ func (s *Session) checkChanges(o *Obs) error {
 					}
 					s.Checks++
 					exp := s.expectItems(pg.Items)
+					if s.relaxFull != nil && !lo {
+						// interrupted compaction: only the unpaged full feed is judged, and it may still hold
+						// duplicates that the completed compaction would have removed
+						if since == 0 && lim == 0 {
+							var before []CEntity
+							for _, c := range s.relaxFull.Chg {
+								if c.Ds == n && c.Since == 0 && c.Lim == 0 && !c.Lo {
+									before = s.expectItems(c.Pg.Items)
+								}
+							}
+							if !isSubseq(exp, items) || !isSubseq(items, before) {
+								s.diverge("changes", map[string]any{"ds": n, "since": 0, "limit": 0, "latestOnly": false, "mode": "interrupted compaction"},
+									map[string]any{"at-least": exp, "at-most": before}, items, "")
+							}
+						}
+						continue
+					}
 					if !sameSeq(exp, items) || next != pg.Next {
 						s.diverge("changes", map[string]any{"ds": n, "since": since, "limit": lim, "latestOnly": lo},
 							map[string]any{"items": exp, "next": pg.Next}, map[string]any{"items": items, "next": next}, "")
 					}
 				}
 				// token walk with this limit from 0: concatenation equals the unpaged answer
-				if lim > 0 {
+				if lim > 0 && !(s.relaxFull != nil && !lo) {
 					full := tab[chgKey{n, 0, 0, lo}]
 					var all []CEntity
 					tok := uint64(0)
@@ -565,7 +595,7 @@ func (s *Session) checkLookups(o *Obs) error {
 					got = append(got, ent)
 					how = append(how, "now")
 				}
-				if id, ok := s.ids[e]; ok && s.Ad.CanAt() {
+				if id, ok := s.ids[e]; ok && s.Ad.CanAt() && !s.NoAt {
 					for _, at := range s.instants(t) {
 						ent, err := s.Ad.LookupAt(s, id, s.scopeReal(sc), at)
 						if err != nil {
@@ -668,7 +698,7 @@ func (s *Session) checkRelated(o *Obs) error {
 								}
 							}
 						}
-						if s.Ad.CanAt() {
+						if s.Ad.CanAt() && !s.NoAt {
 							for _, at := range s.instants(t) {
 								runs = append(runs, run{fmt.Sprintf("at=%d", at), 0, at})
 								if t != o.Clock {
